@@ -276,6 +276,118 @@ func c56DiffExceeds(desc string, n int64) AtomPred {
 	})
 }
 
+// c56StateFlags returns the boolean state flags of fn: boolean merges (phis, through
+// nested merges and loop-carried ones) all of whose incoming values are the constants
+// true and false, both occurring. Keyed by the term the flag is rendered as in atoms.
+func c56StateFlags(fn *ssa.Function) map[string]*ssa.Phi {
+	out := map[string]*ssa.Phi{}
+	HxEachInstr(fn, func(in ssa.Instruction) {
+		ph, ok := in.(*ssa.Phi)
+		if !ok {
+			return
+		}
+		seen := map[*ssa.Phi]bool{}
+		hasT, hasF, pure := false, false, true
+		var walk func(v ssa.Value)
+		walk = func(v ssa.Value) {
+			switch x := v.(type) {
+			case *ssa.Phi:
+				if !seen[x] {
+					seen[x] = true
+					for _, e := range x.Edges {
+						walk(e)
+					}
+				}
+			case *ssa.Const:
+				if x.Value == nil || x.Value.Kind() != constant.Bool {
+					pure = false
+				} else if constant.BoolVal(x.Value) {
+					hasT = true
+				} else {
+					hasF = true
+				}
+			default:
+				pure = false
+			}
+		}
+		walk(ph)
+		if !pure || !hasT || !hasF {
+			return
+		}
+		if ts, cs := LinTerms(CondAtom(ph).L); len(ts) == 1 && cs[0] == 1 {
+			out[ts[0]] = ph
+		}
+	})
+	return out
+}
+
+// c56FlagGuard: every selected site is executed only when a boolean state flag of the
+// function has the value want. Decided over the value tested, not over how the flag is
+// rendered: (a) a dominating branch fact on a state flag with that polarity, or
+// (b) path evaluation: assuming the flag has the opposite value no selected site is reached
+// (covers if/else chains and merged conditions where the deciding edge does not dominate).
+func c56FlagGuard(c *Ctx, fnName string, sel Sel, flagDesc string, want bool) bool {
+	rule := "guard-before"
+	construct := fmt.Sprintf("%s: [%s] under %s %v", fnName, sel.Name, flagDesc, want)
+	fn := c.MustFn(fnName)
+	if fn == nil {
+		return false
+	}
+	ins := sel.F(c.P, fn)
+	if len(ins) == 0 {
+		c.Undecided(rule, construct, "no such site in this function")
+		return false
+	}
+	flags := c56StateFlags(fn)
+	if len(flags) == 0 {
+		c.Undecided(rule, construct, "no boolean state flag (merge of true/false constants) in this function")
+		return false
+	}
+	kind := FALS
+	if want {
+		kind = TRUE
+	}
+	pred := AtomLike(flagDesc, kind, func(l Lin) bool {
+		ts, cs := LinTerms(l)
+		return len(ts) == 1 && cs[0] == 1 && l.K == 0 && flags[ts[0]] != nil
+	})
+	var bad ssa.Instruction
+	for _, in := range ins {
+		hit := false
+		for _, f := range FactsAtInstr(in) {
+			if pred.F(f.Atom) {
+				hit = true
+				break
+			}
+		}
+		if !hit {
+			bad = in
+			break
+		}
+	}
+	if bad == nil {
+		c.OK(rule, construct, fmt.Sprintf("%d site(s), dominating branch on the flag", len(ins)))
+		return true
+	}
+	targets := map[ssa.Instruction]bool{}
+	for _, in := range ins {
+		targets[in] = true
+	}
+	for _, ph := range flags {
+		opposite := CondAtom(ph) // flag is true
+		if want {
+			opposite = opposite.Negate()
+		}
+		if _, reach := ReachableUnder(fn, []Atom{opposite}, targets); !reach {
+			c.OK(rule, construct, fmt.Sprintf("%d site(s), unreachable on every path where the flag is %v", len(ins), !want))
+			return true
+		}
+	}
+	c.Fail(rule, construct, InstrPos(bad), fmt.Sprintf("site `%s` is reached with %s %v: no dominating branch on the flag, and a path with the opposite flag value reaches it",
+		DescribeInstr(bad), flagDesc, !want))
+	return false
+}
+
 func c56(c *Ctx) {
 	const S = "internal/httpsfv."
 	ev := c.P.NewEvaluator()
@@ -344,15 +456,11 @@ func c56(c *Ctx) {
 	c.NeverAfter(num, EdgeP(c56DiffExceeds("more than 15 digits in an integer", 15)), okTrue, true)
 	c.NeverAfter(num, EdgeP(c56DiffExceeds("more than 16 characters in a decimal", 16)), okTrue, true)
 	c.NeverAfter(num, EdgeP(c56DiffExceeds("more than 3 fraction digits", 4)), okTrue, true) // i-periodIndex-1 > 3
-	boolVar := func(kind string) AtomPred {
-		return AtomLike("decimal flag "+kind, kind, func(l Lin) bool {
-			ts, _ := LinTerms(l)
-			return len(ts) == 1 && strings.HasPrefix(ts[0], "φ") && !strings.Contains(ts[0], "(")
-		})
-	}
-	c.GuardP(num, EdgeP(c56DiffExceeds("more than 15 digits in an integer", 15)), boolVar(FALS))
-	c.GuardP(num, EdgeP(c56DiffExceeds("more than 16 characters in a decimal", 16)), boolVar(TRUE))
-	c.GuardP(num, EdgeP(c56DiffExceeds("more than 3 fraction digits", 4)), boolVar(TRUE))
+	// The limits apply per number kind: each limit test runs only under the matching value of the
+	// function's boolean state flag (set once a '.' has been consumed).
+	c56FlagGuard(c, num, EdgeP(c56DiffExceeds("more than 15 digits in an integer", 15)), "decimal flag", false)
+	c56FlagGuard(c, num, EdgeP(c56DiffExceeds("more than 16 characters in a decimal", 16)), "decimal flag", true)
+	c56FlagGuard(c, num, EdgeP(c56DiffExceeds("more than 3 fraction digits", 4)), "decimal flag", true)
 	c.NeverAfter(num, EdgeP(AtomLike("last character is '.'", EQ, func(l Lin) bool {
 		ts, cs := LinTerms(l)
 		return len(ts) == 1 && cs[0] == 1 && l.K == -'.' && strings.HasPrefix(ts[0], "$0[(") && strings.HasSuffix(ts[0], "-1)]")
@@ -364,7 +472,7 @@ func c56(c *Ctx) {
 	// the only sign accepted is '-'
 	c.HasBranch(num, "$0[0] == 45")
 	// '.' switches to decimal only once
-	c.GuardP(num, EdgeP(c56DiffExceeds("more than 12 digits before '.'", 12)), boolVar(FALS))
+	c56FlagGuard(c, num, EdgeP(c56DiffExceeds("more than 12 digits before '.'", 12)), "decimal flag", false)
 
 	// ---- string escapes
 	str := S + "consumeString"
